@@ -1,5 +1,7 @@
 """C05 — cancellation is prompt, honest and local."""
+import diffcheck
 import gen_drv
+import p_c05rt
 from p_drv import DrvProp, K, parse, steps_of
 
 ECANCELED = 125
@@ -81,7 +83,10 @@ def oracle(case, out):
 
 
 class C05(DrvProp):
+    """driver-level part (Proactor::cancel / cancel_token)"""
     pid = "C05"
+    evidence_name = "C05_drv"
+    corpus_name = "C05"
     manifest = dict(
         text="Coq proofs that a cancel request is never dropped by the submission path for any queue capacity >= 1 (with a refuted witness for the pre-fix bare push), that driver-side cancel events touch only their own operation's record, and that cancelling never produces a second result; tied to the code by history acceptance and an oracle for promptness (cancelled op finishes within the following polls), honesty (ECANCELED or genuine data) and locality (neighbours unaffected) on the real driver, three routes, both drivers.",
         note="Partial: promptness/honesty of the kernel's answer to AsyncCancel are environment behaviour observed, not proved; timeouts = future drop are exercised at driver level only (Proactor::cancel / cancel_token). Fixed defect: AsyncCancel dropped on a full SQ (e6799fd). No axioms.",
@@ -99,4 +104,58 @@ class C05(DrvProp):
         return oracle(case, out)
 
 
-PROP = C05()
+MANIFEST = dict(
+    text="Coq proofs in two layers. Runtime level (compio-runtime): an executable model of the context Ext carried by "
+         "the waker, the with_cancel / with_personality / fail_fast combinators and time::timeout as transformers of "
+         "that context, CancelToken (flag, registered keys, listeners) and Submit's Idle/Submitted/Ready machine with "
+         "its drop rule, as a labelled transition system; proved for ALL future expressions (structural induction over "
+         "the nesting) and ALL step sequences: cancel(t) applies one cancel request to exactly the not-yet-cancelled "
+         "operations whose innermost enclosing with_cancel token is t and leaves every other operation untouched; an "
+         "operation first polled after the token fired is cancelled at registration; nesting never loses or replaces "
+         "the outer token/personality except by an inner with_cancel/with_personality; cancel is idempotent; a dropped "
+         "Submit issues exactly one driver cancel when Submitted and none when Idle/Ready; over all routes together at "
+         "most one driver cancel per operation; timeout = inner poll then drop; data is reported only when the driver "
+         "delivered data. Driver level (compio-driver): a cancel request is never dropped by the submission path for "
+         "any queue capacity >= 1 (refuted witness for the pre-fix bare push), driver-side cancel events touch only "
+         "their own operation, no second result. Tie to the code: (a) exact differential correspondence of the "
+         "extracted runtime model with programs on a real compio_runtime::Runtime (both drivers; per task finishing "
+         "run, result class, personality seen by the op, driver cancels issued, storage released; unconsumed data per "
+         "descriptor) - every program is a run of the LTS (C05_run_is_lts_run); (b) history acceptance of the real "
+         "driver by the extracted driver LTS; plus independent oracles for promptness, honesty and locality on both.",
+    note="Partial: what the kernel answers to a cancel (ECANCELED vs. data that was already there) is environment "
+         "behaviour, modelled per driver and checked against the real kernel, not proved; promptness is checked "
+         "(cancelled => finished by the next bounded run, operation storage released), not proved as a time bound. "
+         "Not exercised: multishot streams (SubmitMulti / SubmitMultiStream), Ext lost through wakers cloned to other "
+         "threads or sub-executors, more than one operation per task. Timing assumptions of the runtime harness: first "
+         "poll < 100 ms after construction, 100 ms sleep fires within a 135 ms run. Observed and modelled, not a "
+         "violation of the property text: on io_uring an operation dropped/timed out after its data arrived consumes "
+         "that data (the result is discarded with the future). Fixed defect: AsyncCancel dropped on a full SQ "
+         "(e6799fd). No axioms.",
+    technique="Coq proof (LTS invariant over all step sequences + structural induction over future expressions; "
+              "bounded-queue lemma) + extracted-model differential correspondence + history acceptance + oracles")
+
+
+class C05All:
+    """C05 = driver-level part (history acceptance, drv harness) + runtime-level part
+    (differential correspondence, c05rt harness); one evidence file"""
+    pid = "C05"
+    manifest = MANIFEST
+    prop_file = "prop/C05.v"
+    model_name = "drv"
+    harness_bin = "drv"
+    package = "rt"
+    model_names = ["drv", "c05rt"]
+    harness_bins = [("drv", "rt"), ("c05rt", "rt")]
+
+    def __init__(self):
+        self.parts = [C05(), p_c05rt.C05RT()]
+        self.gen = self.parts[0].gen
+
+    def oracle(self, case, out):
+        return self.parts[0].oracle(case, out)
+
+    def run(self, tier, seed, replay=None):
+        return diffcheck.run_multi("C05", self.parts, tier, seed, replay)
+
+
+PROP = C05All()
